@@ -89,6 +89,11 @@ impl CsvFile {
             let mut r = Rng::new(self.layout_seed);
             r.shuffle(&mut order);
             for n in names.iter_mut() {
+                // an optional column whose header carries an annotation is not recognised (and dropped)
+                if matches!(n.as_str(), "commission currency" | "commission exchange rate" | "memo" | "superficial loss") && r.below(10) == 0 {
+                    *n = format!("{} {}", n, if r.chance(1, 2) { "(ISO)" } else { "[x]" });
+                    continue;
+                }
                 *n = match r.below(4) {
                     0 => n.clone(),
                     1 => n.to_uppercase(),
@@ -428,6 +433,19 @@ pub fn generate(seed: u64, k_seeds: usize) -> Sc {
             all_rows = out;
         }
     }
+    // A fifth of the inputs write some share counts with trailing zeros ("10.0", "2.50"): the same
+    // number at another scale, which Decimal keeps and some cells print.
+    if r.chance(1, 5) {
+        for (_, row) in all_rows.iter_mut() {
+            if !row[C_SHARES].is_empty() && r.chance(1, 3) {
+                if row[C_SHARES].contains('.') {
+                    row[C_SHARES].push('0');
+                } else {
+                    row[C_SHARES].push_str(if r.chance(1, 2) { ".0" } else { ".00" });
+                }
+            }
+        }
+    }
     let n_files = (r.below(3) + 1) as usize;
     let mut files: Vec<CsvFile> = (0..n_files).map(|i| CsvFile { name: format!("tx{}.csv", i + 1), extra_cols: vec![], rows: vec![], layout_seed: 0 }).collect();
     let per = all_rows.len().div_ceil(n_files).max(1);
@@ -522,6 +540,23 @@ pub struct RunOutput {
     pub short_reads: u64,
 }
 
+/// The day on which a process runs. Without look-ups nothing the tool prints may depend on it, so
+/// the processes of one input run on different days: the scenario's (years after the last
+/// transaction), 20 days after the last settlement, or 90 days after it. With look-ups (shared
+/// cache, server snapshot) every process runs on the scenario's day.
+pub fn process_today(sc: &Sc, hash_seed: u64) -> Date {
+    let base = parse_date(&sc.today);
+    if sc.fx.is_some() {
+        return base;
+    }
+    let last = sc.files.iter().flat_map(|f| f.rows.iter()).filter_map(|r| acb::util::date::parse_standard_date(&r[C_SETTLE]).ok()).max();
+    match (hash_seed % 3, last) {
+        (1, Some(l)) => l + Duration::days(20),
+        (2, Some(l)) => l + Duration::days(90),
+        _ => base,
+    }
+}
+
 pub fn run_once(sc: &Sc, mode: Mode, hash_seed: u64) -> RunOutput {
     run_once_in(sc, mode, hash_seed, false, None, None)
 }
@@ -551,8 +586,8 @@ pub fn run_once_in(sc: &Sc, mode: Mode, hash_seed: u64, keep_cache: bool, boc: O
         }
     });
     let published_today = sc.fx.as_ref().map(|f| f.published_today).unwrap_or(false);
-    let today_d = parse_date(&sc.today);
-    let mut env = ProcEnv::new(hash_seed, parse_date(&sc.today));
+    let today_d = process_today(sc, hash_seed);
+    let mut env = ProcEnv::new(hash_seed, today_d);
     env.knobs = Knobs { max_write: usize::MAX, max_read: sc.max_read, eintr_every: 0 };
     let symbol_base = sc.symbol_base.clone();
     let summarize_before = sc.summarize_before.clone();
@@ -706,7 +741,7 @@ pub fn run_e2e(sc: &Sc, mode: Mode, hash_seed: u64, used_out_dir: Option<&Vec<(S
     if sc.e2e_verbose {
         args.push("--verbose".to_string());
     }
-    let today = parse_date(&sc.today);
+    let today = process_today(sc, hash_seed);
     let now = (today - d(1970, 1, 1)).whole_days() * 86_400 + 43_200 + (hash_seed % 21_600) as i64 - 10_800;
     let o = std::process::Command::new(format!("{}/debug/acb", dir))
         .args(&args)
